@@ -413,6 +413,11 @@ def opGenWalk : M String := do
   let r := if which == "ltf" then
       Gen.ltf_plan_walk (c.N : Int) c.fs c.olap c.bmin (c.Lmin : Int) (c.Jdes : Int) (c.Kdes : Int) fuel
     else Gen.new_ltf_plan_walk (c.N : Int) c.fs c.olap c.bmin (c.Lmin : Int) (c.Jdes : Int) (c.Kdes : Int) fuel
+  if which == "vec" then
+    -- translated from vectorized_ltf_plan each run (returns f, r, L, K; b = f / r is formed afterwards in the source)
+    let (f, rr, L, K) := Gen.vectorized_ltf_plan_walk (c.N : Int) c.fs c.olap c.bmin (c.Lmin : Int) (c.Jdes : Int) (c.Kdes : Int) fuel
+    let b := (f.zip rr).map (fun (x, y) => x / y)
+    return s!"{f.length} | " ++ joinF f ++ " | " ++ joinF rr ++ " | " ++ joinF b ++ " | " ++ " ".intercalate (L.map toString) ++ " | " ++ " ".intercalate (K.map toString)
   let (f, rr, b, L, K) := r
   return s!"{f.length} | " ++ joinF f ++ " | " ++ joinF rr ++ " | " ++ joinF b ++ " | " ++ " ".intercalate (L.map toString) ++ " | " ++ " ".intercalate (K.map toString)
 
